@@ -6,16 +6,40 @@ import (
 	"github.com/alephium/wormhole-fork/node/pkg/zzverif"
 )
 
-func verifID(tag string) *VAAID {
-	id := &VAAID{EmitterChain: ChainID(zzverif.U16(tag + ".ec")), TargetChain: ChainID(zzverif.U16(tag + ".tc")), Sequence: zzverif.U64(tag + ".seq")}
-	copy(id.EmitterAddress[:], zzverif.Bytes(tag+".addr", 32))
-	zzverif.Assume(id.Sequence < 10)
+// 16-bit chain id whose decimal digit count is a shape (so runs can be sharded by it); the value stays symbolic
+func verifChainID(tag string) ChainID {
+	c := zzverif.U16(tag)
+	switch zzverif.Len(tag+".digits", 1, 2, 3, 4, 5) {
+	case 1:
+		zzverif.Assume(c < 10)
+	case 2:
+		zzverif.Assume(c >= 10 && c < 100)
+	case 3:
+		zzverif.Assume(c >= 100 && c < 1000)
+	case 4:
+		zzverif.Assume(c >= 1000 && c < 10000)
+	default:
+		zzverif.Assume(c >= 10000)
+	}
+	return c2(c)
+}
+
+func c2(c uint16) ChainID { return ChainID(c) }
+
+func verifID(tag string, maxSeq uint64) *VAAID {
+	id := &VAAID{EmitterChain: verifChainID(tag + ".ec"), TargetChain: verifChainID(tag + ".tc"), Sequence: zzverif.U64(tag + ".seq")}
+	copy(id.EmitterAddress[:], zzverif.Blob(tag+".addr", 32))
+	zzverif.Assume(id.Sequence < maxSeq)
 	return id
 }
 
-// keys are injective, and the stream prefix selects exactly one (chain, address, target) stream
+// C12 key lemmas over two arbitrary identifiers (all 16-bit chain ids, all 32-byte addresses, sequences < 1000):
+// the store key is injective; the governance prefix selects exactly one (chain, address); the stream prefix FOLLOWED BY
+// THE SEPARATOR selects exactly one (chain, address, target) stream. (What the store's scans do with these prefixes is
+// checked on the real db code by VerifC12_Store / VerifC12_GovBatch in package db.)
 func VerifC12_Keys() {
-	a, p := verifID("a"), verifID("p")
+	maxSeq := uint64(zzverif.Len("maxseq", 10, 1000))
+	a, p := verifID("a", maxSeq), verifID("p", maxSeq)
 	ka, kp := a.Bytes(), p.Bytes()
 	if bytes.Equal(ka, kp) {
 		zzverif.Reach("equal-keys")
@@ -25,8 +49,8 @@ func VerifC12_Keys() {
 		zzverif.Reach("gov-prefix-hit")
 		zzverif.Assert(a.EmitterChain == p.EmitterChain && a.EmitterAddress == p.EmitterAddress, "gov-prefix-isolates")
 	}
-	if bytes.HasPrefix(ka, p.EmitterPrefixBytes()) {
+	if bytes.HasPrefix(ka, append(p.EmitterPrefixBytes(), '/')) {
 		zzverif.Reach("prefix-hit")
-		zzverif.Assert(a.EmitterChain == p.EmitterChain && a.EmitterAddress == p.EmitterAddress && a.TargetChain == p.TargetChain, "prefix-isolates")
+		zzverif.Assert(a.EmitterChain == p.EmitterChain && a.EmitterAddress == p.EmitterAddress && a.TargetChain == p.TargetChain, "stream-prefix-with-separator-isolates")
 	}
 }
